@@ -614,6 +614,12 @@ func fetchMetadata(wellKnownURL string, httpClient *http.Client) (*ProviderMetad
 		return nil, fmt.Errorf("failed to decode provider metadata from %s: %w. Response body: %s", wellKnownURL, err, string(bodyBytes))
 	}
 
+	// A 200 answer that is JSON but not a metadata document (OpenID Connect Discovery 1.0, section 3: issuer,
+	// authorization_endpoint, token_endpoint and jwks_uri are required) is a failed attempt like any other.
+	if metadata.Issuer == "" || metadata.AuthURL == "" || metadata.TokenURL == "" || metadata.JWKSURL == "" {
+		return nil, fmt.Errorf("incomplete provider metadata from %s: issuer, authorization_endpoint, token_endpoint and jwks_uri are required", wellKnownURL)
+	}
+
 	return &metadata, nil
 }
 
